@@ -158,6 +158,7 @@ def run(ctx, rep) -> None:
     rep.floor("store sites inside retried closures", n_sites, 15)
 
     _r3_dataflow(ctx, rep)
+    token_integrity_rule(ctx, rep, "C07.R1")
 
     # ---- R4 no swallow ------------------------------------------------------------------------------
     _r4(ctx, rep)
@@ -185,6 +186,36 @@ SCOPE = ("stabilize.handlers", "stabilize.persistence.transaction", "stabilize.p
 
 def _in_scope(f) -> bool:
     return any(f.module.name == p or f.module.name.startswith(p + ".") for p in SCOPE)
+
+
+def token_integrity_rule(ctx, rep, rid: str) -> None:
+    """The optimistic-lock token is only ever advanced by the persistence layer after a successful CAS, and a reader takes
+    the token BEFORE the dependent rows it protects (so a stale snapshot can only carry a stale token)."""
+    prog = ctx.prog
+    n = 0
+    for f in prog.all_functions():
+        if f.module.name.startswith(("stabilize.cli", "stabilize.monitor")):
+            continue
+        for a in ast.walk(f.node):
+            tg = a.targets if isinstance(a, ast.Assign) else ([a.target] if isinstance(a, (ast.AugAssign, ast.AnnAssign)) else [])
+            for t in tg:
+                if isinstance(t, ast.Attribute) and t.attr == "version" and not (isinstance(t.value, ast.Name) and t.value.id == "self"):
+                    n += 1
+                    ok = f.module.name.startswith("stabilize.persistence.")
+                    rep.check(ok, rid, f"version token written in {f.module.name}:{f.qualname}", "only the persistence layer advances / restores the token" if ok else
+                              "a handler overwrites the optimistic-lock token of an in-memory stage: the next store passes the version check without the writer having seen the concurrent change (a laundered conflict)",
+                              f.file, a.lineno, disc=f"{f.module.name}:{f.qualname}")
+    rep.floor("writes of a .version token", n, 4)
+    rs = prog.func("stabilize.persistence.sqlite.store.stage_ops", "SqliteStageOpsMixin.retrieve_stage")
+    sel = [s_ for s_ in sqlshape.statements(prog) if s_.func.qualname == "SqliteStageOpsMixin.retrieve_stage" and s_.kind == "SELECT"]
+    stage_sel = [s_ for s_ in sel if s_.table == "stage_executions"]
+    task_sel = [s_ for s_ in sel if s_.table == "task_executions"]
+    ok = bool(stage_sel) and bool(task_sel) and min(s_.line for s_ in stage_sel) < min(s_.line for s_ in task_sel)
+    # helper calls that read dependent stages must also come after the stage row
+    first_stage = min((s_.line for s_ in stage_sel), default=0)
+    early = [c for c in ast.walk(rs.node) if isinstance(c, ast.Call) and isinstance(c.func, ast.Attribute) and c.func.attr in ("get_upstream_stages", "get_synthetic_stages") and c.lineno < first_stage]
+    rep.check(ok and not early, rid, "retrieve_stage reads the versioned stage row before its tasks", "SELECT stage_executions (version) precedes SELECT task_executions: an old task snapshot can never be paired with a newer version"
+              if ok else "the task rows are read before the stage row: a reader can pair an OLD task list with the CURRENT version and pass the version check with stale data", rs.file, (task_sel[0].line if task_sel else rs.node.lineno), disc="read-order")
 
 
 def _r3_dataflow(ctx, rep) -> None:
